@@ -131,6 +131,8 @@ def setLast (x : Val) : Val → Val
 
 def emptyN0Dict : Val := .dict .n0 []
 def emptyN0List : Val := .list .n0 []
+/-- `n0list([None])`: a new list with the placeholder the next level (`[last()]`) replaces -/
+def placeholderList : Val := .list .n0 [Val.none]
 
 /-- one level of `n0dict._add` (one element of `xpath_list`) -/
 def addStep (root : Val) (par : PRef) (ni : Option Str) (t : Str) : PyM (Val × PRef × Str) := do
@@ -170,13 +172,12 @@ def addStep (root : Val) (par : PRef) (ni : Option Str) (t : Str) : PyM (Val × 
                   | .dict c kvs => .dict c (kvSet nn emptyN0Dict kvs) | v => v)
                 pure (root, par, nn)
             | some old =>
-              if nidx.truthy then
-                match idxTokStr nidx with
-                | Option.none => .error .Unsupported
-                | some is =>
-                  let (root, par) := modRef root par (fun v => match v with
-                    | .dict c kvs => .dict c (kvSet nn (.list .plain [old]) kvs) | v => v)
-                  pure (root, childRef root par (.key nn), bracket is)
+              -- "Node is EXISTED": reached through the `new()` step of `_find` on a single value (fix C04-a); the
+              -- value becomes the first item of a new list, followed by the placeholder
+              if nidx = .str sNew then
+                let (root, par) := modRef root par (fun v => match v with
+                  | .dict c kvs => .dict c (kvSet nn (.list .n0 [old, Val.none]) kvs) | v => v)
+                pure (root, childRef root par (.key nn), bracket sLast)
               else .error .IndexError
           | _ => .error .Unsupported
         else
@@ -193,6 +194,8 @@ def addStep (root : Val) (par : PRef) (ni : Option Str) (t : Str) : PyM (Val × 
         | Option.none => .error .Unsupported
         | some pv =>
         if cis = sNew then
+          -- a list that is being created takes `new()` or `0` only (fix C03-b)
+          if nidx.truthy && nidx ≠ .str sNew && nidx ≠ .str ['0'] then .error .SyntaxError else
           match pv with
           | .list .. =>
             if !nn.isEmpty then
@@ -200,40 +203,34 @@ def addStep (root : Val) (par : PRef) (ni : Option Str) (t : Str) : PyM (Val × 
                 let (root, par) := modRef root par (appendVal (.dict .n0 [(nn, emptyN0Dict)]))
                 let n := match valOf root par with | some (.list _ xs) => xs.length - 1 | _ => 0
                 pure (root, childRef root par (.idx n), nn)
-              else match idxTokStr nidx with
-                | Option.none => .error .Unsupported
-                | some is =>
-                  let (root, par) := modRef root par (appendVal (.dict .n0 [(nn, emptyN0List)]))
-                  let n := match valOf root par with | some (.list _ xs) => xs.length - 1 | _ => 0
-                  pure (root, childRef root (childRef root par (.idx n)) (.key nn), bracket is)
-            else if nidx.truthy then
-              match idxTokStr nidx with
-              | Option.none => .error .Unsupported
-              | some is =>
-                let (root, par) := modRef root par (appendVal emptyN0List)
+              else
+                let (root, par) := modRef root par (appendVal (.dict .n0 [(nn, placeholderList)]))
                 let n := match valOf root par with | some (.list _ xs) => xs.length - 1 | _ => 0
-                pure (root, childRef root par (.idx n), bracket is)
+                pure (root, childRef root (childRef root par (.idx n)) (.key nn), bracket sLast)
+            else if nidx.truthy then
+              let (root, par) := modRef root par (appendVal placeholderList)
+              let n := match valOf root par with | some (.list _ xs) => xs.length - 1 | _ => 0
+              pure (root, childRef root par (.idx n), bracket sLast)
             else .error .ValueError
           | _ => .error .AttributeError
         else if cis = sLast then
           match pv with
           | .list _ xs =>
+            -- a list that is being created takes `new()` or `0` only (fix C03-b)
+            if nidx.truthy && nidx ≠ .str sNew && nidx ≠ .str ['0'] then .error .SyntaxError else
             if !nn.isEmpty then
               if xs.isEmpty then .error .IndexError else
               if !nidx.truthy then
                 let (root, par) := modRef root par (setLast (.dict .n0 [(nn, emptyN0Dict)]))
                 pure (root, childRef root par (.idx (xs.length - 1)), nn)
-              else match idxTokStr nidx with
-                | Option.none => .error .Unsupported
-                | some is =>
-                  let (root, par) := modRef root par (setLast (.dict .n0 [(nn, emptyN0List)]))
-                  pure (root, childRef root (childRef root par (.idx (xs.length - 1))) (.key nn), bracket is)
+              else
+                let (root, par) := modRef root par (setLast (.dict .n0 [(nn, placeholderList)]))
+                pure (root, childRef root (childRef root par (.idx (xs.length - 1))) (.key nn), bracket sLast)
             else if nidx.truthy then
-              match idxTokStr nidx with
-              | Option.none => .error .Unsupported
-              | some is =>
-                let (root, par) := modRef root par (appendVal emptyN0List)
-                pure (root, childRef root par (.idx xs.length), bracket is)
+              -- list under list: the parent's placeholder is replaced (fix C03-b; it was appended next to it)
+              if xs.isEmpty then .error .IndexError else
+              let (root, par) := modRef root par (setLast placeholderList)
+              pure (root, childRef root par (.idx (xs.length - 1)), bracket sLast)
             else .error .UnboundLocalError
           | _ => .error .ValueError
         else
@@ -253,8 +250,8 @@ def addStep (root : Val) (par : PRef) (ni : Option Str) (t : Str) : PyM (Val × 
     step
 
 /-- `n0dict._add(parent_node, node_name_index, xpath_list)`: the tree after the call (a failing
-creation leaves what it had already inserted) and, on success, the node that will receive the
-value with the name/index under which it is stored -/
+creation leaves what it had already inserted; `__setitem__` takes it back, see `setItem`) and, on
+success, the node that will receive the value with the name/index under which it is stored -/
 def add (root : Val) (par : PRef) (ni : Option Str) : List Str → Val × PyM (PRef × Str)
   | [] => (root, .error .IndexError)
   | t :: rest =>
@@ -374,10 +371,11 @@ def setItem (fuel : Nat) (root : Val) (xp : Str) (v : Val) : Val × PyM Unit :=
       | .ok (root, r) =>
         let nf := match r.notFound with | some l => l | Option.none => []
         if !nf.isEmpty then
+          -- a refused creation takes back what `_add` had inserted (fix C03-a): the tree is the one the search left
           match add root r.parent r.nameIdx nf with
-          | (root, .error e) => (root, .error e)
-          | (root, .ok (par, ni)) =>
-            match storeAt root par (some ni) v with
+          | (_, .error e) => (root, .error e)
+          | (root1, .ok (par, ni)) =>
+            match storeAt root1 par (some ni) v with
             | .error e => (root, .error e)
             | .ok root' => (root', .ok ())
         else
